@@ -65,6 +65,7 @@ type generator struct {
 	chans []chanKey
 	ops   []opJ
 	me    uint64
+	calm  bool // mostly the executor's own walk, few interruptions: reaches commit / promote / clear
 }
 
 func isTerminal(s uint8) bool { return s == sCompleted || s == sFailed || s == sAborted }
@@ -876,6 +877,29 @@ func (g *generator) oneCmd() (cmdJ, bool) {
 	if x < 3 {
 		g.now += vh.Pick(r, int64(350), 500, 5000)
 	}
+	pPerturb := 0.22
+	if g.calm {
+		pPerturb = 0.1
+		// calm walk: 80% executor steps, the rest spread thinly
+		switch {
+		case x < 80:
+			x = 10 // executor step
+		case x < 84:
+			x = 60 // create
+		case x < 86:
+			x = 70 // abort
+		case x < 88:
+			x = 76 // reset
+		case x < 93:
+			x = 82 // rewind of a post-commit / terminal task
+		case x < 95:
+			x = 87 // random advance / claim
+		case x < 97:
+			x = 91 // gc
+		default:
+			x = 97 // meta upsert
+		}
+	}
 	switch {
 	case x < 58 && nActive > 0:
 		t, ok := g.pickTask(active)
@@ -883,7 +907,7 @@ func (g *generator) oneCmd() (cmdJ, bool) {
 			return g.cmdCreate(ch)
 		}
 		c, ok := g.executorStep(t)
-		if ok && vh.Chance(r, 0.22) {
+		if ok && vh.Chance(r, pPerturb) {
 			g.perturb(&c)
 		}
 		return c, ok
@@ -1020,7 +1044,7 @@ func (g *generator) specialBatch() []cmdJ {
 }
 
 func gen(r *rand.Rand, tier string, i int) input {
-	g := &generator{r: r, now: 1000, me: 7}
+	g := &generator{r: r, now: 1000, me: 7, calm: vh.Chance(r, 0.6)}
 	g.w = newWorld()
 	defer g.w.close()
 	g.chans = []chanKey{baseChans[r.IntN(len(baseChans))]}
@@ -1044,18 +1068,25 @@ func gen(r *rand.Rand, tier string, i int) input {
 		}
 	}
 	steps := 6 + r.IntN(22)
+	if g.calm {
+		steps = 14 + r.IntN(18)
+	}
 	if tier == "thorough" {
 		steps = 6 + r.IntN(50)
 	}
 	for s := 0; s < steps; s++ {
-		if vh.Chance(r, 0.2) {
+		pSpecial, pMulti := 0.2, 0.15
+		if g.calm {
+			pSpecial, pMulti = 0.06, 0.06
+		}
+		if vh.Chance(r, pSpecial) {
 			if b := g.specialBatch(); len(b) > 0 {
 				g.emit(b)
 				continue
 			}
 		}
 		n := 1
-		if vh.Chance(r, 0.15) {
+		if vh.Chance(r, pMulti) {
 			n = 2 + r.IntN(3)
 		}
 		var batch []cmdJ
